@@ -133,6 +133,7 @@ func (h *History) Sched(d *Decoded) (string, error) {
 		pos++
 	}
 	var out []string
+	next := Tgid0(d) // TG id the next flush will use if no timer flush intervenes
 	for si := 0; si < len(h.Steps); si++ {
 		st := &h.Steps[si]
 		switch st.Kind {
@@ -160,6 +161,11 @@ func (h *History) Sched(d *Decoded) (string, error) {
 					for _, c := range e.Rec.Cmds {
 						bodyFiles = append(bodyFiles, c.F)
 					}
+					// background mode: every timer flush that found an empty queue advanced the TG id by one
+					for ; next < e.Rec.Tid && e.Rec.Tid-next < 100000; next++ {
+						out = append(out, "(SFlush [])")
+					}
+					next = e.Rec.Tid + 1
 				}
 				if e.K == "pw" || e.K == "vdata" || e.K == "vindex" {
 					if !seen[e.F] {
@@ -212,6 +218,141 @@ func (h *History) Sched(d *Decoded) (string, error) {
 			pos = len(evs)
 		}
 	}
+	return cq.List(out), nil
+}
+
+// SchedBG derives the schedule of a background-mode run (the REAL SyncWAL goroutine, one sequential writer)
+// from the recording: the writer's catalog calls, the loop's flushes (timer-driven or requested), its
+// timer-driven checkpoints and rotations, and the acknowledgement markers, in the order they happened.
+// Timer flushes that found an empty queue leave no system call; they show as gaps in the TG ids.
+func (h *History) SchedBG(d *Decoded) (string, error) {
+	// the markers of the writer goroutine may fall inside a group of the loop goroutine's calls: take them
+	// out, remember before which loop event each one came, and emit it after the group it fell into
+	var evs []Ev
+	type ackAt struct{ pos, id int }
+	var acks []ackAt
+	for _, e := range d.Evs {
+		if e.K == "ack" {
+			acks = append(acks, ackAt{len(evs), e.Ack})
+		} else {
+			evs = append(evs, e)
+		}
+	}
+	var writes []int
+	for si := range h.Steps {
+		if h.Steps[si].Kind == "write" {
+			writes = append(writes, si)
+		}
+	}
+	wi := 0 // next write step whose commands have not been flushed yet
+	next := Tgid0(d)
+	var out []string
+	var pre []Ev
+	flushPre := func() {
+		if len(pre) > 0 {
+			out = append(out, fmt.Sprintf("(SEnqueue %s [])", EvsTerm(pre)))
+			pre = nil
+		}
+	}
+	i := 0
+	for i < len(evs) && i < 3 && (evs[i].K == "walcreate" || evs[i].K == "walstatus" || evs[i].K == "walfsync") {
+		i++
+	}
+	ai := 0
+	emitAcks := func(upto int) {
+		for ai < len(acks) && acks[ai].pos <= upto {
+			flushPre()
+			out = append(out, fmt.Sprintf("(SAck %s)", cq.Nat(acks[ai].id)))
+			ai++
+		}
+	}
+	for i < len(evs) {
+		emitAcks(i)
+		e := evs[i]
+		switch {
+		case e.K == "cat" || e.K == "filenew" || e.K == "filehdr" || e.K == "create":
+			pre = append(pre, e)
+			i++
+		case e.K == "walapp" && e.Rec.T == "txn" && e.Rec.Dest == 0 && e.Rec.St == 0:
+			// a flush group: 6 appends + fsync, then the primary writes
+			if i+6 >= len(evs) || evs[i+3].K != "walapp" || evs[i+3].Rec.T != "body" {
+				return "", fmt.Errorf("event %d: incomplete flush group", i)
+			}
+			body := evs[i+3].Rec
+			j := i + 7
+			var primFiles []int
+			seen := map[int]bool{}
+			for j < len(evs) && (evs[j].K == "pw" || evs[j].K == "vdata" || evs[j].K == "vindex") {
+				if !seen[evs[j].F] {
+					seen[evs[j].F] = true
+					primFiles = append(primFiles, evs[j].F)
+				}
+				j++
+			}
+			if wi >= len(writes) {
+				return "", fmt.Errorf("event %d: a flush without a pending request", i)
+			}
+			st := &h.Steps[writes[wi]]
+			wi++
+			var bodyFiles []int
+			for _, c := range body.Cmds {
+				bodyFiles = append(bodyFiles, c.F)
+			}
+			type bt struct {
+				term string
+				key  int
+			}
+			var bts []bt
+			for bi := range st.Batches {
+				term, fids := h.batchTerm(d, &st.Batches[bi])
+				key := 1 << 30
+				for p, f := range bodyFiles {
+					for _, g := range fids {
+						if f == g && p < key {
+							key = p
+						}
+					}
+				}
+				bts = append(bts, bt{term, key})
+			}
+			sort.SliceStable(bts, func(a, b int) bool { return bts[a].key < bts[b].key })
+			var terms []string
+			for _, b := range bts {
+				terms = append(terms, b.term)
+			}
+			// timer flushes that found the queue empty (they only advance the TG id) come first
+			for ; next < body.Tid && body.Tid-next < 100000; next++ {
+				out = append(out, "(SFlush [])")
+			}
+			next = body.Tid + 1
+			out = append(out, fmt.Sprintf("(SEnqueue %s %s)", EvsTerm(pre), cq.List(terms)))
+			pre = nil
+			out = append(out, fmt.Sprintf("(SFlush %s)", fidList(primFiles)))
+			i = j
+		case e.K == "walapp" && e.Rec.T == "txn" && e.Rec.Dest == 1 && e.Rec.St == 0:
+			// a checkpoint: PREPARING, sync, COMMITCOMPLETE, then possibly the rotation
+			flushPre()
+			j := i + 1
+			for j < len(evs) && j < i+3 && (evs[j].K == "sync" || (evs[j].K == "walapp" && evs[j].Rec.T == "txn" && evs[j].Rec.Dest == 1)) {
+				j++
+			}
+			rot := j+2 < len(evs) && evs[j].K == "waltrunc"
+			if rot {
+				j += 3
+			}
+			out = append(out, fmt.Sprintf("(SCheckpoint %s)", cq.Bool(rot)))
+			i = j
+		case e.K == "waltrunc":
+			// a rotation after a checkpoint that had nothing to write
+			flushPre()
+			out = append(out, "(SCheckpoint true)")
+			i += 3
+		default:
+			return "", fmt.Errorf("event %d (%s): not an event of the writer loop", i, e.K)
+		}
+	}
+	emitAcks(len(evs))
+	flushPre()
 	return cq.List(out), nil
 }
 
